@@ -116,7 +116,7 @@ func Run(r *mon.R, impls []Impl, label string) {
 	var jobs []job
 	for i := range impls {
 		im := &impls[i]
-		for k := 0; k < r.N(100, 2500); k++ {
+		for k := 0; k < r.N(100, 1500); k++ {
 			jobs = append(jobs, job{im, "ops", k})
 		}
 		for k := 0; k < r.N(4, 60); k++ {
